@@ -1,7 +1,8 @@
 import PnaVerif.Model.Cli.PartName
 /-! Lemmas about multipart file names (`Model/Cli/PartName.lean`): `lastDot`/`splitExt` on
-    appended lists, `withExtension`, decimal digits, the shape of `withExt` output, the `Good`
-    predicate (exactly the names on which renumbering a part is consistent), `splitPath`. -/
+    appended lists, `withExtension`, decimal digits, the predicates `Numbered`/`NotMarked`/`PnaExt`
+    (`Good` is trivial since foreign extensions are appended to), the shape of `withExt` output,
+    `removeExt` on part names, `splitPath`. -/
 namespace Pna.Cli.PartName
 
 -- ---------------------------------------------------------------- lastDot
@@ -159,10 +160,6 @@ theorem mem_of_splitExt_stem {name stem : Str} {x : Option Str} (h : splitExt na
 
 -- ---------------------------------------------------------------- withExtension
 
-theorem withExtension_plain (s ext : Str) (h : splitExt s = some (s, none)) :
-    withExtension s ext = s ++ '.' :: ext := by
-  simp [withExtension, h]
-
 theorem take_length_sub (a b : Str) :
     (a ++ '.' :: b).take ((a ++ '.' :: b).length - b.length) = a ++ ['.'] := by
   have : (a ++ '.' :: b).length - b.length = (a ++ ['.']).length := by simp; omega
@@ -175,39 +172,6 @@ theorem withExtension_ext (a b ext : Str) (ha : a ≠ []) (ha' : a ≠ ['.']) (h
   have h1 := splitExt_append_dot a b ha hb (Or.inl ha')
   have h2 := splitExt_append_dot a [] ha (by simp) (Or.inl ha')
   simp only [withExtension, h1, take_length_sub, h2]
-
-theorem withExtension_dot_ext (b ext : Str) (hb : '.' ∉ b) (hne : b ≠ []) :
-    withExtension ('.' :: '.' :: b) ext = ['.', '.'] := by
-  have h1 := splitExt_append_dot ['.'] b (by simp) hb (Or.inr hne)
-  have h2 : splitExt ['.', '.'] = none := by decide
-  have := take_length_sub ['.'] b
-  simp only [List.cons_append, List.nil_append] at h1 this
-  simp only [withExtension, h1, this, h2]
-
-theorem withExtension_dotdot (ext : Str) : withExtension ['.', '.'] ext = ['.', '.'] := by
-  have h2 : splitExt ['.', '.'] = none := by decide
-  simp only [withExtension, h2]
-
-theorem mem_withExtension {s ext : Str} {c : Char} (h : c ∈ withExtension s ext) :
-    c ∈ s ∨ c = '.' ∨ c ∈ ext := by
-  unfold withExtension at h
-  have key : ∀ t : Str, (∀ c ∈ t, c ∈ s) →
-      c ∈ (match splitExt t with | none => t | some (st, _) => st ++ '.' :: ext) →
-      c ∈ s ∨ c = '.' ∨ c ∈ ext := by
-    intro t ht hc
-    split at hc
-    · exact Or.inl (ht c hc)
-    · rename_i st x hst
-      simp only [List.mem_append, List.mem_cons] at hc
-      rcases hc with hc | hc | hc
-      · exact Or.inl (ht c (mem_of_splitExt_stem hst hc))
-      · exact Or.inr (Or.inl hc)
-      · exact Or.inr (Or.inr hc)
-  apply key _ _ h
-  intro c hc
-  split at hc
-  · exact List.mem_of_mem_take hc
-  · exact hc
 
 -- ---------------------------------------------------------------- decimal, part markers
 
@@ -294,32 +258,28 @@ theorem partPrefix_not_prefix_of_pna {e : Str} (h : e.map lower = ['p', 'n', 'a'
 
 -- ---------------------------------------------------------------- predicates
 
-/-- the stem already carries a part marker: its own extension is `part` + digits -/
+/-- the name (or stem) already carries a part marker: its extension is `part` + digits -/
 def Numbered (stem : Str) : Prop :=
   match splitExt stem with
   | some (_, some e2) => isPartMarker e2 = true
   | _ => False
 
-/-- the stem does not end in an extension beginning with `part` -/
+/-- the name (or stem) does not end in an extension beginning with `part` -/
 def NotMarked (stem : Str) : Prop :=
   match splitExt stem with
   | some (_, some e2) => ¬ partPrefix.isPrefixOf e2
   | _ => True
 
-/-- The names on which renumbering is consistent (`good_iff_renumber`).  Names without extension
-    and names with a `pna` extension always are.  With any other extension `e` the first `withExt`
-    replaces the *two* last extensions of `stem.e` by `partN`, and every later one replaces one
-    more: the stem must not be `..`, and what is left of the stem without its own extension must
-    be a name without extension other than `.`. -/
-def Good (name : Str) : Prop :=
+/-- the name has an extension that is `pna` up to ASCII case -/
+def PnaExt (name : Str) : Prop :=
   match splitExt name with
-  | some (stem, some e) =>
-    if e.map lower = ['p', 'n', 'a'] then True
-    else match splitExt stem with
-      | none => False
-      | some (_, none) => True
-      | some (s2, some _) => s2 ≠ ['.'] ∧ splitExt s2 = some (s2, none)
-  | _ => True
+  | some (_, some e) => e.map lower = ['p', 'n', 'a']
+  | _ => False
+
+/-- The names on which renumbering is consistent.  Since `withExt` appends to foreign extensions
+    instead of replacing them this is every name (`withExt_renumber_all`); the predicate is kept
+    so that `good_iff_renumber` records that nothing weaker is needed. -/
+def Good (_name : Str) : Prop := True
 
 instance : DecidablePred Numbered := fun stem => by
   unfold Numbered
@@ -329,13 +289,11 @@ instance : DecidablePred NotMarked := fun stem => by
   unfold NotMarked
   split <;> infer_instance
 
-instance : DecidablePred Good := fun name => by
-  unfold Good
-  split
-  · split
-    · infer_instance
-    · split <;> infer_instance
-  · infer_instance
+instance : DecidablePred PnaExt := fun name => by
+  unfold PnaExt
+  split <;> infer_instance
+
+instance : DecidablePred Good := fun _ => inferInstanceAs (Decidable True)
 
 theorem not_numbered_of_notMarked {stem : Str} (h : NotMarked stem) : ¬ Numbered stem := by
   unfold NotMarked at h
@@ -348,14 +306,24 @@ theorem not_numbered_of_notMarked {stem : Str} (h : NotMarked stem) : ¬ Numbere
 
 -- ---------------------------------------------------------------- withExt: computation
 
-theorem withExt_plain (name : Str) (n : Nat) (h : splitExt name = some (name, none)) :
+theorem withExt_no_ext {name stem : Str} (n : Nat) (h : splitExt name = some (stem, none)) :
     withExt name n = some (name ++ '.' :: partExt n) := by
-  simp only [withExt, h, withExtension_plain _ _ h]
+  simp only [withExt, h]
+  simp
 
-theorem withExt_other {name stem e : Str} (n : Nat) (h : splitExt name = some (stem, some e))
-    (he : e.map lower ≠ ['p', 'n', 'a']) :
-    withExt name n = some (withExtension stem (partExt n)) := by
-  simp only [withExt, h, if_neg he]
+/-- an extension `partK` (no `pna` after it) is replaced -/
+theorem withExt_marker {name stem e : Str} (n : Nat) (h : splitExt name = some (stem, some e))
+    (he : e.map lower ≠ ['p', 'n', 'a']) (hm : isPartMarker e = true) :
+    withExt name n = some (stem ++ '.' :: partExt n) := by
+  simp only [withExt, h, if_neg he, hm, if_true]
+  simp
+
+/-- any other extension is kept and `.partN` is appended -/
+theorem withExt_foreign {name stem e : Str} (n : Nat) (h : splitExt name = some (stem, some e))
+    (he : e.map lower ≠ ['p', 'n', 'a']) (hm : isPartMarker e = false) :
+    withExt name n = some (name ++ '.' :: partExt n) := by
+  simp only [withExt, h, if_neg he, hm, Bool.false_eq_true, if_false]
+  simp
 
 theorem withExt_pna_numbered {name stem e base e2 : Str} (n : Nat)
     (h : splitExt name = some (stem, some e)) (he : e.map lower = ['p', 'n', 'a'])
@@ -380,14 +348,6 @@ theorem withExt_pna_unnumbered {name stem e : Str} (n : Nat)
       simp only [hs] at hm
       simp [hm]
 
-/-- a part name without archive extension: `b.partN` -/
-theorem withExt_marked_plain (b : Str) (hb : splitExt b = some (b, none)) (n m : Nat) :
-    withExt (b ++ '.' :: partExt n) m = some (b ++ '.' :: partExt m) := by
-  have hne : b ≠ [] := ((plain_iff b).mp hb).1
-  have hs := splitExt_append_dot b (partExt n) hne (dot_not_mem_partExt n)
-    (Or.inr (partExt_ne_nil n))
-  rw [withExt_other m hs (partExt_not_pna n), withExtension_plain _ _ hb]
-
 theorem splitExt_marked_pna (b e : Str) (he : e.map lower = ['p', 'n', 'a'])
     (n : Nat) :
     splitExt (b ++ '.' :: (partExt n ++ '.' :: e)) = some (b ++ '.' :: partExt n, some e) := by
@@ -399,6 +359,11 @@ theorem splitExt_marked (b : Str) (hb : b ≠ []) (n : Nat) :
     splitExt (b ++ '.' :: partExt n) = some (b, some (partExt n)) :=
   splitExt_append_dot b (partExt n) hb (dot_not_mem_partExt n) (Or.inr (partExt_ne_nil n))
 
+/-- a part name without archive extension: `b.partN` -/
+theorem withExt_marked_plain (b : Str) (hb : b ≠ []) (n m : Nat) :
+    withExt (b ++ '.' :: partExt n) m = some (b ++ '.' :: partExt m) :=
+  withExt_marker m (splitExt_marked b hb n) (partExt_not_pna n) (isPartMarker_partExt n)
+
 /-- a part name of an archive: `b.partN.pna` -/
 theorem withExt_marked_pna (b e : Str) (hb : b ≠ []) (he : e.map lower = ['p', 'n', 'a'])
     (n m : Nat) :
@@ -409,21 +374,19 @@ theorem withExt_marked_pna (b e : Str) (hb : b ≠ []) (he : e.map lower = ['p',
 
 -- ---------------------------------------------------------------- the shape of `withExt` output
 
-/-- On a `Good` name the output is `b.partN` with `b` a name without extension, or `b.partN.e`
-    with `b` non-empty and `e` a `pna` extension; `b` and `e` do not depend on `n`. -/
-theorem withExt_shape {name : Str} (hg : Good name) (hs : splitExt name ≠ none) :
-    (∃ b, splitExt b = some (b, none) ∧ ∀ n, withExt name n = some (b ++ '.' :: partExt n)) ∨
+/-- The output is `b.partN` with `b` non-empty, or `b.partN.e` with `b` non-empty and `e` a `pna`
+    extension; `b` and `e` do not depend on `n`. -/
+theorem withExt_shape {name : Str} (hs : splitExt name ≠ none) :
+    (∃ b, b ≠ [] ∧ ∀ n, withExt name n = some (b ++ '.' :: partExt n)) ∨
     (∃ b e, b ≠ [] ∧ e.map lower = ['p', 'n', 'a'] ∧
       ∀ n, withExt name n = some (b ++ '.' :: (partExt n ++ '.' :: e))) := by
+  have hne : name ≠ [] := fun h0 => hs ((splitExt_eq_none_iff name).mpr (Or.inl h0))
   cases h : splitExt name with
   | none => exact absurd h hs
   | some p =>
     obtain ⟨stem, x⟩ := p
     cases x with
-    | none =>
-      have := splitExt_some_none h
-      subst this
-      exact Or.inl ⟨stem, h, fun n => withExt_plain _ n h⟩
+    | none => exact Or.inl ⟨name, hne, fun n => withExt_no_ext n h⟩
     | some e =>
       obtain ⟨_, hstem, _⟩ := splitExt_some_ext h
       by_cases he : e.map lower = ['p', 'n', 'a']
@@ -437,115 +400,39 @@ theorem withExt_shape {name : Str} (hg : Good name) (hs : splitExt name ≠ none
           · exact hm.elim
         · exact ⟨stem, e, hstem, he, fun n => withExt_pna_unnumbered n h he hm⟩
       · left
-        unfold Good at hg
-        simp only [h, if_neg he] at hg
-        cases hs2 : splitExt stem with
-        | none => simp [hs2] at hg
-        | some q =>
-          obtain ⟨s2, y⟩ := q
-          cases y with
-          | none =>
-            have := splitExt_some_none hs2
-            subst this
-            exact ⟨s2, hs2, fun n => by rw [withExt_other n h he, withExtension_plain _ _ hs2]⟩
-          | some e2 =>
-            simp only [hs2] at hg
-            obtain ⟨h2name, h2ne, h2d⟩ := splitExt_some_ext hs2
-            refine ⟨s2, hg.2, fun n => ?_⟩
-            rw [withExt_other n h he, h2name, withExtension_ext s2 e2 _ h2ne hg.1 h2d]
+        cases hm : isPartMarker e with
+        | true => exact ⟨stem, hstem, fun n => withExt_marker n h he hm⟩
+        | false => exact ⟨name, hne, fun n => withExt_foreign n h he hm⟩
 
 theorem splitExt_ne_none_of_withExt {name w : Str} {n : Nat} (h : withExt name n = some w) :
     splitExt name ≠ none := by
   intro hs
   simp [withExt, hs] at h
 
--- ---------------------------------------------------------------- `Good` is necessary
-
-theorem plain_of_withExtension_eq {s x : Str} (hne : s ≠ [])
-    (h : withExtension s x = s ++ '.' :: x) : splitExt s = some (s, none) := by
-  cases hs : splitExt s with
-  | none =>
-    rcases (splitExt_eq_none_iff s).mp hs with h0 | h0
-    · exact absurd h0 hne
-    · subst h0
-      rw [withExtension_dotdot] at h
-      have := congrArg List.length h
-      simp at this
+/-- neither `pna` nor already numbered: `.partN` is appended to the whole name -/
+theorem withExt_append {name : Str} (n : Nat) (hs : splitExt name ≠ none) (hn : ¬ PnaExt name)
+    (hm : ¬ Numbered name) : withExt name n = some (name ++ '.' :: partExt n) := by
+  cases h : splitExt name with
+  | none => exact absurd h hs
   | some p =>
-    obtain ⟨a, y⟩ := p
-    cases y with
-    | none => rw [splitExt_some_none hs]
-    | some b =>
-      obtain ⟨hsn, ha, hb⟩ := splitExt_some_ext hs
-      exfalso
-      by_cases ha' : a = ['.']
-      · subst ha'
-        have hbne : b ≠ [] := by
-          intro hb0
-          subst hb0
-          rw [hsn] at hs
-          revert hs
-          decide
-        rw [hsn] at h
-        simp only [List.cons_append, List.nil_append] at h
-        rw [withExtension_dot_ext b x hb hbne] at h
-        have := congrArg List.length h
-        simp at this
-      · rw [hsn, withExtension_ext a b x ha ha' hb] at h
-        have := congrArg List.length h
-        simp at this
-        omega
+    obtain ⟨stem, x⟩ := p
+    cases x with
+    | none => exact withExt_no_ext n h
+    | some e =>
+      have he : e.map lower ≠ ['p', 'n', 'a'] := fun he => hn (by simp only [PnaExt, h, he])
+      have hm' : isPartMarker e = false := by
+        cases hb : isPartMarker e with
+        | true => exact absurd (by simp only [Numbered, h, hb]) hm
+        | false => rfl
+      exact withExt_foreign n h he hm'
 
-theorem withExt_dotdot (n : Nat) : withExt ['.', '.'] n = none := by
-  have h2 : splitExt ['.', '.'] = none := by decide
-  simp only [withExt, h2]
-
-/-- renumbering already fails for `n = m = 0` on every name that is not `Good` -/
-theorem good_of_renumber {name : Str}
-    (h : ∀ w, withExt name 0 = some w → withExt w 0 = withExt name 0) : Good name := by
-  unfold Good
-  split
-  · rename_i stem e hs
-    split
-    · trivial
-    · rename_i he
-      have hw := withExt_other 0 hs he
-      have hstem : stem ≠ [] := (splitExt_some_ext hs).2.1
-      split
-      · rename_i hs2
-        rcases (splitExt_eq_none_iff stem).mp hs2 with h0 | h0
-        · exact hstem h0
-        · subst h0
-          rw [withExtension_dotdot] at hw
-          have := h _ hw
-          rw [withExt_dotdot, hw] at this
-          cases this
-      · trivial
-      · rename_i s2 e2 hs2
-        obtain ⟨h2name, h2ne, h2d⟩ := splitExt_some_ext hs2
-        by_cases hdot : s2 = ['.']
-        · exfalso
-          subst hdot
-          have he2 : e2 ≠ [] := by
-            intro h0
-            subst h0
-            rw [h2name] at hs2
-            revert hs2
-            decide
-          rw [h2name] at hw
-          simp only [List.cons_append, List.nil_append] at hw
-          rw [withExtension_dot_ext e2 _ h2d he2] at hw
-          have := h _ hw
-          rw [withExt_dotdot, hw] at this
-          cases this
-        · refine ⟨hdot, ?_⟩
-          rw [h2name, withExtension_ext s2 e2 _ h2ne hdot h2d] at hw
-          have h1 := h _ hw
-          have hsw := splitExt_append_dot s2 (partExt 0) h2ne (dot_not_mem_partExt 0)
-            (Or.inr (partExt_ne_nil 0))
-          rw [withExt_other 0 hsw (partExt_not_pna 0), hw] at h1
-          exact plain_of_withExtension_eq h2ne (Option.some.inj h1)
-  · trivial
+/-- already numbered, no `pna` after the marker: the marker is replaced -/
+theorem withExt_replace {name stem e : Str} (n : Nat) (h : splitExt name = some (stem, some e))
+    (hm : isPartMarker e = true) : withExt name n = some (stem ++ '.' :: partExt n) := by
+  refine withExt_marker n h (fun he => ?_) hm
+  have := partPrefix_not_prefix_of_pna he
+  rw [isPartMarker_prefix hm] at this
+  cases this
 
 -- ---------------------------------------------------------------- removeExt
 
@@ -579,9 +466,7 @@ theorem mem_withExt {name w : Str} {n : Nat} {c : Char} (h : withExt name n = so
     obtain ⟨stem, x⟩ := p
     cases x with
     | none =>
-      have := splitExt_some_none hs
-      subst this
-      rw [withExt_plain _ n hs] at h
+      rw [withExt_no_ext n hs] at h
       cases h
       simpa using hc
     | some e =>
@@ -612,12 +497,19 @@ theorem mem_withExt {name w : Str} {n : Nat} {c : Char} (h : withExt name n = so
           · exact Or.inr (Or.inr (List.mem_append.mpr hc))
           · exact Or.inr (Or.inl hc)
           · exact Or.inl (he _ hc)
-      · rw [withExt_other n hs hp] at h
-        cases h
-        rcases mem_withExtension hc with hc | hc | hc
-        · exact Or.inl (hstem _ hc)
-        · exact Or.inr (Or.inl hc)
-        · exact Or.inr (Or.inr hc)
+      · cases hm : isPartMarker e with
+        | true =>
+          rw [withExt_marker n hs hp hm] at h
+          cases h
+          simp only [List.mem_append, List.mem_cons] at hc
+          rcases hc with hc | hc | hc
+          · exact Or.inl (hstem _ hc)
+          · exact Or.inr (Or.inl hc)
+          · exact Or.inr (Or.inr (List.mem_append.mpr hc))
+        | false =>
+          rw [withExt_foreign n hs hp hm] at h
+          cases h
+          simpa using hc
 
 theorem slash_not_mem_withExt {name w : Str} {n : Nat} (hn : '/' ∉ name)
     (h : withExt name n = some w) : '/' ∉ w := by
@@ -659,187 +551,5 @@ theorem withPart_append (dir name : Str) (n : Nat) (hd : DirPrefix dir) (hn : '/
 theorem removePart_append (dir name : Str) (hd : DirPrefix dir) (hn : '/' ∉ name) :
     removePart (dir ++ name) = (removeExt name).map (dir ++ ·) := by
   simp only [removePart, splitPath_append dir name hd hn]
-
--- ---------------------------------------------------------------- which names are `Good`
-
-/-- the name has an extension that is `pna` up to ASCII case -/
-def PnaExt (name : Str) : Prop :=
-  match splitExt name with
-  | some (_, some e) => e.map lower = ['p', 'n', 'a']
-  | _ => False
-
-instance : DecidablePred PnaExt := fun name => by
-  unfold PnaExt
-  split <;> infer_instance
-
-theorem good_of_pnaExt {name : Str} (h : PnaExt name) : Good name := by
-  unfold PnaExt at h
-  unfold Good
-  split at h
-  · rename_i e hs
-    simp only [h, if_true]
-  · exact h.elim
-
-theorem good_of_count_le_two (name : Str) (h : name.count '.' ≤ 2) : Good name := by
-  unfold Good
-  split
-  · rename_i stem e hs
-    split
-    · trivial
-    · obtain ⟨hname, hstem, _⟩ := splitExt_some_ext hs
-      have hcnt : stem.count '.' ≤ 1 := by
-        rw [hname] at h
-        simp only [List.count_append, List.count_cons, beq_self_eq_true, if_true] at h
-        omega
-      split
-      · rename_i hs2
-        rcases (splitExt_eq_none_iff stem).mp hs2 with h0 | h0
-        · exact hstem h0
-        · rw [h0] at hcnt
-          simp at hcnt
-      · trivial
-      · rename_i s2 e2 hs2
-        obtain ⟨h2name, h2ne, _⟩ := splitExt_some_ext hs2
-        have hd : '.' ∉ s2 := by
-          rw [h2name] at hcnt
-          simp only [List.count_append, List.count_cons, beq_self_eq_true, if_true] at hcnt
-          exact List.count_eq_zero.mp (by omega)
-        exact ⟨fun h0 => hd (by simp [h0]), plain_of_dotless s2 h2ne hd⟩
-  · trivial
-
-theorem count_dot_of_plain {s : Str} (h : splitExt s = some (s, none))
-    (hh : s.head? ≠ some '.') : s.count '.' = 0 := by
-  obtain ⟨_, _, ht⟩ := (plain_iff s).mp h
-  cases s with
-  | nil => rfl
-  | cons c cs =>
-    have hc : c ≠ '.' := by simpa using hh
-    apply List.count_eq_zero.mpr
-    simp only [List.tail_cons] at ht
-    simp [ht, Ne.symm hc]
-
-theorem head?_append_of_ne_nil {a b : Str} (ha : a ≠ []) : (a ++ b).head? = a.head? := by
-  cases a with
-  | nil => exact absurd rfl ha
-  | cons _ _ => rfl
-
-/-- names that do not begin with a dot: `Good` exactly when the extension is `pna` or there are
-    at most two dots -/
-theorem good_iff_of_no_leading_dot (name : Str) (hh : name.head? ≠ some '.') :
-    Good name ↔ PnaExt name ∨ name.count '.' ≤ 2 := by
-  constructor
-  · intro hg
-    unfold Good at hg
-    unfold PnaExt
-    cases hs : splitExt name with
-    | none =>
-      right
-      rcases (splitExt_eq_none_iff name).mp hs with h0 | h0
-      · simp [h0]
-      · simp [h0]
-    | some p =>
-      obtain ⟨stem, x⟩ := p
-      cases x with
-      | none =>
-        right
-        have := splitExt_some_none hs
-        subst this
-        rw [count_dot_of_plain hs hh]
-        omega
-      | some e =>
-        simp only [hs] at hg ⊢
-        by_cases he : e.map lower = ['p', 'n', 'a']
-        · exact Or.inl he
-        · right
-          simp only [if_neg he] at hg
-          obtain ⟨hname, hstem, hde⟩ := splitExt_some_ext hs
-          have hhs : stem.head? ≠ some '.' := by
-            rw [hname, head?_append_of_ne_nil hstem] at hh
-            exact hh
-          have hce : e.count '.' = 0 := List.count_eq_zero.mpr hde
-          rw [hname]
-          simp only [List.count_append, List.count_cons, beq_self_eq_true, if_true, hce]
-          cases hs2 : splitExt stem with
-          | none => simp [hs2] at hg
-          | some q =>
-            obtain ⟨s2, y⟩ := q
-            cases y with
-            | none =>
-              have := splitExt_some_none hs2
-              subst this
-              rw [count_dot_of_plain hs2 hhs]
-              omega
-            | some e2 =>
-              simp only [hs2] at hg
-              obtain ⟨h2name, h2ne, h2d⟩ := splitExt_some_ext hs2
-              have hh2 : s2.head? ≠ some '.' := by
-                rw [h2name, head?_append_of_ne_nil h2ne] at hhs
-                exact hhs
-              have hce2 : e2.count '.' = 0 := List.count_eq_zero.mpr h2d
-              rw [h2name]
-              simp only [List.count_append, List.count_cons, beq_self_eq_true, if_true, hce2,
-                count_dot_of_plain hg.2 hh2]
-              omega
-  · rintro (h | h)
-    · exact good_of_pnaExt h
-    · exact good_of_count_le_two name h
-
-/-- hidden files: one leading dot, then a name that does not begin with a dot and has at most
-    two dots -/
-theorem good_of_hidden (rest : Str) (hh : rest.head? ≠ some '.') (hc : rest.count '.' ≤ 2) :
-    Good ('.' :: rest) := by
-  unfold Good
-  split
-  · rename_i stem e hs
-    split
-    · trivial
-    · obtain ⟨hname, hstem, _⟩ := splitExt_some_ext hs
-      cases stem with
-      | nil => exact absurd rfl hstem
-      | cons c st =>
-        simp only [List.cons_append, List.cons.injEq] at hname
-        obtain ⟨hc0, hrest⟩ := hname
-        subst hc0
-        have hcnt : st.count '.' ≤ 1 := by
-          rw [hrest] at hc
-          simp only [List.count_append, List.count_cons, beq_self_eq_true, if_true] at hc
-          omega
-        have hst : st.head? ≠ some '.' := by
-          intro h0
-          apply hh
-          rw [hrest]
-          cases st with
-          | nil => cases h0
-          | cons _ _ => exact h0
-        split
-        · rename_i hs2
-          rcases (splitExt_eq_none_iff _).mp hs2 with h0 | h0
-          · cases h0
-          · simp only [List.cons.injEq, true_and] at h0
-            rw [h0] at hst
-            exact hst rfl
-        · trivial
-        · rename_i s2 e2 hs2
-          obtain ⟨h2name, h2ne, _⟩ := splitExt_some_ext hs2
-          cases s2 with
-          | nil => exact absurd rfl h2ne
-          | cons c2 s2' =>
-            simp only [List.cons_append, List.cons.injEq] at h2name
-            obtain ⟨hc2, hst2⟩ := h2name
-            subst hc2
-            have hd : '.' ∉ s2' := by
-              rw [hst2] at hcnt
-              simp only [List.count_append, List.count_cons, beq_self_eq_true, if_true] at hcnt
-              exact List.count_eq_zero.mp (by omega)
-            have hne : s2' ≠ [] := by
-              intro h0
-              subst h0
-              rw [hst2] at hst
-              exact hst rfl
-            refine ⟨by simpa using hne, (plain_iff _).mpr ⟨by simp, ?_, by simpa using hd⟩⟩
-            intro h0
-            simp only [List.cons.injEq, true_and] at h0
-            exact hd (by simp [h0])
-  · trivial
 
 end Pna.Cli.PartName
